@@ -270,4 +270,7 @@ func checkC07(c *vh.Ctx) {
 	deepTillageRuns(c, c.N(3, 20), c07Day)
 	creditRuns(c, c.N(12, 120))
 	lateMeasureRuns(c, c.N(8, 80), c07Day)
+	// fertiliser bookkeeping over a run (c07_fertpool.go); after the older stages so that their random streams are unchanged
+	fertPoolKernelStage(c, c.N(1500, 20000))
+	fertPoolRunStage(c, c.N(10, 100))
 }
